@@ -127,10 +127,30 @@ class VerifAllocator : public ArduinoJson::Allocator {
 
   std::function<void(const AllocEvent&)> sink;
 
+  // process-wide fault schedule counted over the failable calls of ALL instances
+  struct Global {
+    bool armed = false;
+    long failable = 0, fired = 0, failFrom = 0;
+    std::set<long> failSet;
+  };
+  static Global& global() { static Global g; return g; }
+  static void armSingle(long k) { Global& g = global(); g = Global(); g.armed = true; g.failSet = {k}; }
+  static void armFrom(long k) { Global& g = global(); g = Global(); g.armed = true; g.failFrom = k; }
+  static void armSet(std::set<long> ks) { Global& g = global(); g = Global(); g.armed = true; g.failSet = std::move(ks); }
+  static void disarm() { global().armed = false; }
+  static void resetGlobalCount() { Global& g = global(); g = Global(); }
+
  private:
   struct Blk { long blk; size_t size; };
   static long& nextBlk() { static long n = 0; return n; }
-  bool shouldFail() const {
+  bool shouldFail() {
+    Global& g = global();
+    g.failable++;
+    if (liveBytes_ > (size_t(1) << 29)) return true;  // a runaway document runs out of memory, not the machine
+    if (g.armed) {
+      if (g.failFrom && g.failable >= g.failFrom) { g.fired++; return true; }
+      if (g.failSet.count(g.failable)) { g.fired++; return true; }
+    }
     if (failFrom_ && failable_ >= failFrom_) return true;
     return failSet_.count(failable_) != 0;
   }
